@@ -65,7 +65,9 @@ func DriveVal(out io.Writer, seed int64, runs, length int) (map[string]int, erro
 			case absx.Bool(st["halted"]):
 				e = M{"type": "ExportImport"}
 			case phase == "out":
-				if r.Intn(12) == 0 {
+				if r.Intn(6) == 0 {
+					e = M{"type": "ExecProbe", "signer": pick(r, []string{"e1", "e2"})}
+				} else if r.Intn(12) == 0 {
 					e = M{"type": "ExportImport"}
 				} else {
 					e = M{"type": "BeginBlock"}
@@ -102,7 +104,7 @@ func DriveVal(out io.Writer, seed int64, runs, length int) (map[string]int, erro
 				case w < 62:
 					h := absx.Int(st["height"]) + int64(r.Intn(3))
 					e = M{"type": "RegisterPlan", "id": int64(pick(r, []int{1, 1, 1, 0})), "height": h, "op": pick(r, append(ops, l1.BadNotBech32)), "key": pick(r, append(keys, "nil")),
-						"execs": pick(r, [][]any{{"e2"}, {"e1", "e2"}, {"e2", "e2"}, {"e1", "e2", "e1"}, {l1.BadNotBech32}})}
+						"execs": pick(r, [][]any{{"e2"}, {"e1", "e2"}, {"e2", "e2"}, {"e1", "e2", "e1"}, {"up:e2"}, {l1.BadNotBech32}})}
 				default:
 					e = M{"type": "EndBlock"}
 				}
